@@ -28,7 +28,7 @@ func init() {
 						continue
 					}
 					n++
-					c.Check("C18/addr-writers/"+fn.Name+"/"+s.Kind, rule1, s.Pos, fn == a.fn, s.Kind+" in "+fn.Name)
+					c.Check("C18/addr-writers/"+fn.Name+"/"+s.Kind, rule1, s.Pos, c.allRoots(fn, func(r *core.Func) bool { return r == a.fn }), s.Kind+" in "+fn.Name)
 				}
 			}
 		}
